@@ -101,6 +101,11 @@ def simulate(ctx, c, num, depth=60):
                 name="sim-" + c["name"], timeout=1500)
     if r.violated:
         raise vf.Infra("ideal Flood spec violates %s in simulation of %s" % (r.violated, c["name"]))
+    import re
+    m = re.search(r"The number of states generated: (\d+)", r.out)
+    r.generated = int(m.group(1)) if m else 0
+    m = re.search(r"(\d+) traces generated", r.out)
+    r.traces = int(m.group(1)) if m else 0
     return r
 
 
